@@ -205,6 +205,8 @@ type bmState struct {
 	depCh          map[string]int64 // chain/tok: deposits observed
 	wdCh           map[string]int64 // chain/tok: withdrawals observed as executed
 	erc20Pool0     map[string]int64 // chain/tok: bridge denomination held by the erc20 module at the start
+	erc20PoolLast  map[string]int64 // ... at the last look
+	everParked     map[string]int64 // ... sum of all increases seen (bridge-call refunds parking it there)
 	rec            *ev.Recorder
 }
 
@@ -333,12 +335,18 @@ func (s *bmState) chainLiquidity(ctx sdk.Context, ti int, ch string) (liq *big.I
 	liq = big.NewInt(s.liq0[key] + s.depCh[key] - s.wdCh[key])
 	liq.Sub(liq, s.pendingInboundOn(ctx, ti, ch))
 	liq.Sub(liq, s.inFlightOn(ctx, ti, ch))
-	parked = s.f.App.BankKeeper.GetBalance(ctx, authtypes.NewModuleAddress(erc20types.ModuleName), s.tok(ti).Bridge[ch]).Amount.BigInt()
-	parked.Sub(parked, big.NewInt(s.erc20Pool0[key]))
-	if parked.Sign() < 0 {
-		parked = new(big.Int)
+	// cumulative: what was ever parked there stays missing on the bridge side even after somebody has drawn it
+	// from the conversion pool again (MsgConvertDenom, fee increases through the precompile)
+	pool := s.f.App.BankKeeper.GetBalance(ctx, authtypes.NewModuleAddress(erc20types.ModuleName), s.tok(ti).Bridge[ch]).Amount.Int64()
+	last, seen := s.erc20PoolLast[key]
+	if !seen {
+		last = s.erc20Pool0[key]
 	}
-	return liq, parked
+	if pool > last {
+		s.everParked[key] += pool - last
+	}
+	s.erc20PoolLast[key] = pool
+	return liq, big.NewInt(s.everParked[key])
 }
 
 func (s *bmState) ledger(ctx sdk.Context, desc string) *Failure {
@@ -481,7 +489,7 @@ func runBridgeMachine(c bmCase, which string, rec *ev.Recorder) *Failure {
 	f := base()
 	ctx, _ := f.Ctx.CacheContext()
 	s := &bmState{f: f, which: which, txs: map[string]*bmTx{}, batches: map[string]*bmBatch{}, calls: map[string]*bmCall{}, extH: map[string]uint64{},
-		lastBatchExec: map[string]uint64{}, pending: map[string][]uint64{}, deposits: map[int]*big.Int{}, withdrawn: map[int]*big.Int{}, initial: map[int]*big.Int{}, labels: map[string]bool{}, observedHeight: map[string]bool{}, outstanding: map[string]int64{}, liq0: map[string]int64{}, depCh: map[string]int64{}, wdCh: map[string]int64{}, erc20Pool0: map[string]int64{}, rec: rec}
+		lastBatchExec: map[string]uint64{}, pending: map[string][]uint64{}, deposits: map[int]*big.Int{}, withdrawn: map[int]*big.Int{}, initial: map[int]*big.Int{}, labels: map[string]bool{}, observedHeight: map[string]bool{}, outstanding: map[string]int64{}, liq0: map[string]int64{}, depCh: map[string]int64{}, wdCh: map[string]int64{}, erc20Pool0: map[string]int64{}, erc20PoolLast: map[string]int64{}, everParked: map[string]int64{}, rec: rec}
 	gov := sim.GovAddr.String()
 	for i, ch := range baseChains {
 		k := f.Keeper(ch)
